@@ -635,7 +635,7 @@ AS = "src/hypergraph/runners/async_/superstep.py"
 TS = "src/hypergraph/runners/_shared/template_sync.py"
 TA = "src/hypergraph/runners/_shared/template_async.py"
 VARIANTS = [
-    Variant("map-forwards-on-missing-unvalidated", TS, sub_first(r"        validate_map_compatible\(graph\)\n        _validate_on_missing\(on_missing\)\n", "        validate_map_compatible(graph)\n"), {"C12.R5"}),
+    Variant("map-forwards-on-missing-unvalidated", TS, replace_once("        _validate_on_internal_override(on_internal_override)\n        _validate_on_missing(on_missing)\n", "        _validate_on_internal_override(on_internal_override)\n"), {"C12.R5"}),
     Variant("sync-no-error-event", SS, replace_once("                if active:\n                    dispatcher.emit(build_node_error_event(run_id, node_span_id, run_span_id, node, graph))\n", "                pass\n"), {"C12.R1"}),
     Variant("async-error-event-narrow", AS, replace_once("        except Exception:\n            if active:\n                await dispatcher.emit_async(build_node_error_event", "        except ValueError:\n            if active:\n                await dispatcher.emit_async(build_node_error_event"), {"C12.R1"}),
     Variant("async-store-outside-try", AS, replace_once("            # Store result in cache\n            if cache is not None and cache_key:\n                store_in_cache(node, outputs, new_state, cache, cache_key)\n\n            if active:\n                route_evt = build_route_decision_event(run_id, run_span_id, node, graph, new_state)\n                if route_evt is not None:\n                    await dispatcher.emit_async(route_evt)\n                await dispatcher.emit_async(build_node_end_event(run_id, node_span_id, run_span_id, node, graph, duration_ms))\n\n            return node, outputs, input_versions, wait_for_versions\n        except Exception:\n            if active:\n                await dispatcher.emit_async(build_node_error_event(run_id, node_span_id, run_span_id, node, graph))\n            raise\n", "        except Exception:\n            if active:\n                await dispatcher.emit_async(build_node_error_event(run_id, node_span_id, run_span_id, node, graph))\n            raise\n        # Store result in cache\n        if cache is not None and cache_key:\n            store_in_cache(node, outputs, new_state, cache, cache_key)\n\n        if active:\n            route_evt = build_route_decision_event(run_id, run_span_id, node, graph, new_state)\n            if route_evt is not None:\n                await dispatcher.emit_async(route_evt)\n            await dispatcher.emit_async(build_node_end_event(run_id, node_span_id, run_span_id, node, graph, duration_ms))\n\n        return node, outputs, input_versions, wait_for_versions\n"), {"C12.R1"}),
